@@ -200,13 +200,13 @@ def _cell(rng, kind, d, atol, tight):
         w = min(fl.perp_widths(cf))
         if tight:
             # shrink by a dyadic factor so that the smallest width is just above D
-            target = D * rng.choice([1.03, 1.1, 1.3])
+            target = D * rng.choice([1.001, 1.005, 1.03, 1.1, 1.3])
             f = Fraction(int(math.ceil(target / w * 64)), 64)
             if f <= 0:
                 continue
             cf = np.array([[float(Fraction(v) * f) for v in row] for row in cell])
             w = min(fl.perp_widths(cf))
-            if w > D * 1.02:
+            if w > D * 1.0005:
                 return cf
         elif w > D + 1.0:
             return cf
@@ -214,13 +214,17 @@ def _cell(rng, kind, d, atol, tight):
 
 
 def wrap(v, cf, cinv):
-    f = v.dot(cinv) % 1.0
+    f0 = v.dot(cinv)
+    if ((f0 >= 0.0) & (f0 < 1.0)).all():
+        return np.array(v, dtype=float)          # already inside: keep the coordinates bit for bit
+    f = f0 % 1.0
     f[f >= 1.0] = 0.0
     return f.dot(cf)
 
 
 def planted(rng, pname, cell_kind, copies, atol=0.05, ndecoy=0, perturb_div=8.0, tight=False, mirror_copies=0,
-            decoy_kinds=("mirror", "nearmiss", "distractor"), max_tries=12, validate=True, cell=None):
+            decoy_kinds=("mirror", "nearmiss", "distractor"), max_tries=12, validate=True, cell=None, exact=False,
+            inside=0.25, validate_atol=None):
     """A periodic structure with planted copies of pattern `pname`.
 
     copies : list of (pose, frac) — pose in POSES, frac = 3 fractional coordinates of the image of the pattern's
@@ -255,10 +259,10 @@ def planted(rng, pname, cell_kind, copies, atol=0.05, ndecoy=0, perturb_div=8.0,
                 # some copies are uniformly stretched about the first atom: every atom stays within atol/4 of the best
                 # rigid fit, but the far end of the long pair lies beyond the exact pattern length
                 stretch = 1.0
-                exact = perturb and rng.random() < 0.25      # an exact rigid image (no noise at all)
-                if exact:
+                is_exact = exact or (perturb and rng.random() < 0.25)      # an exact rigid image (no noise at all)
+                if is_exact:
                     perturb = False
-                elif perturb and d > 0 and rng.random() < 0.3:
+                elif perturb and d > 0 and rng.random() < 0.3 and perturb_div >= 8:
                     stretch = 1.0 + 0.4 * atol / d
                 for p in src:
                     v = np.array([float(x) for x in fl.matvec(R, p)]) * stretch + origin
@@ -335,7 +339,7 @@ def planted(rng, pname, cell_kind, copies, atol=0.05, ndecoy=0, perturb_div=8.0,
                          "attempts": attempt + 1}}
         if not validate:
             return case
-        ins, amb = brute_occurrences(elems, case["pos"], case["cell"], pel, pf, atol)
+        ins, amb = brute_occurrences(elems, case["pos"], case["cell"], pel, pf, validate_atol or atol, inside=inside)
         if not amb and ins == set(plant) and len(set(plant)) == len(plant):
             return case
     return None
@@ -374,7 +378,8 @@ def random_case(rng, atol=0.05, pname=None, cell_kind=None, boundary=None, tight
         copies.append((pose, frac))
     nd = (0 if tight else rng.randint(0, 3)) if ndecoy is None else ndecoy
     case = planted(rng, pname, cell_kind, copies, atol=atol, ndecoy=nd, perturb_div=perturb_div, tight=tight,
-                   mirror_copies=1 if (rng.random() < 0.25 and not tight) else 0)
+                   mirror_copies=1 if (rng.random() < 0.25 and not tight) else 0,
+                   inside=0.5 if perturb_div < 8 else 0.25)
     if case is not None and listing is not False:
         r = rng.random()
         mode = listing or ("slot-major" if r < 0.2 else "random" if r < 0.3 else "reversed" if r < 0.35 else None)
@@ -627,3 +632,165 @@ def mirror_first_case(rng, atol=0.05, pname=None, mode="slot-major"):
     if case is None or len(case["planted"]) < 2:
         return None
     return relist(case, rng, mode)
+
+
+# ------------------------------------------------------------------ conditioning of a hint triple
+
+def hint_levers(ppos, hints):
+    """(ra, ro, given_o) for a hint triple, resolved the way the code resolves it (ties: the worst candidate):
+      ra = (largest distance of a pattern atom from the first axis atom) / (axis length)
+      ro = (largest distance of a pattern atom from the axis) / (distance of the orientation atom from the axis)
+    The code aligns the pattern with TWO points and ONE azimuth: a displacement eps of the axis atoms tilts the axis by
+    ~2 eps / L, a displacement of the orientation atom turns the pattern about the axis by ~eps / h; the other atoms
+    feel these errors multiplied by their lever arms, i.e. by ra and ro."""
+    P = np.array(ppos, dtype=float)
+    n = len(P)
+    idx = [None if h is None else int(h) % n for h in hints]
+    d2 = ((P[:, None, :] - P[None, :, :]) ** 2).sum(axis=2)
+    h1, h2, ho = idx
+    if h1 is not None and h2 is not None:
+        axes = [(h1, h2)]
+    elif h1 is None and h2 is None:
+        mx = d2.max()
+        axes = [(i, j) for i in range(n) for j in range(n) if d2[i, j] >= mx - 1e-9]
+    else:
+        a = h1 if h1 is not None else h2
+        mx = d2[a].max()
+        axes = [(a, j) for j in range(n) if d2[a, j] >= mx - 1e-9]
+    ra, ro = 1.0, 1.0
+    for a, b in axes:
+        L = math.sqrt(d2[a, b])
+        if L < 1e-9:
+            return float("inf"), float("inf"), ho is not None
+        u = (P[b] - P[a]) / L
+        off = np.linalg.norm(np.cross(P - P[a], u), axis=1)
+        ra = max(ra, math.sqrt(d2[a].max()) / L)
+        if n > 2 and off.max() > 1e-9:
+            o = ho if ho is not None else int(np.argmax(off))
+            ro = max(ro, float("inf") if off[o] < 1e-12 else off.max() / off[o])
+    return ra, ro, ho is not None
+
+
+ILL_RO = 5.0          # lever ratio of the orientation point from which the known finding is claimed
+
+
+def spell_hints(rng, hints, n):
+    """the same hint triple in another public spelling: negative indices (python convention) or numpy integers"""
+    r = rng.random()
+    if r < 0.25:
+        return tuple(None if h is None else int(h) - n for h in hints), "negative"
+    if r < 0.5:
+        return tuple(None if h is None else rng.choice([np.int64, np.int32])(h) for h in hints), "numpy"
+    return tuple(hints), "int"
+
+
+def norm_hints(hints, n):
+    """hints as non-negative python ints (for the model op and for replays)"""
+    return [None if h is None else int(h) % n for h in hints]
+
+
+def single_copy(rng, pel, P, atol, f_lo, f_hi, cell=None):
+    """one copy of the pattern (elements pel, coordinates P) in a roomy cell, every atom displaced by f*atol in a random
+    direction, f in [f_lo, f_hi]; validated by the brute-force enumerator with inside = 0.5"""
+    P = np.array(P, dtype=float)
+    d = float(np.sqrt(((P[:, None] - P[None]) ** 2).sum(-1).max()))
+    for _ in range(20):
+        cf = _cell(rng, rng.choice(["ortho", "tri+", "tri-", "upper"]), d, atol, False) if cell is None else np.array(cell, dtype=float)
+        cinv = np.linalg.inv(cf)
+        R = np.array([[float(x) for x in row] for row in fl.rotmat(fl.rat_quat(rng))])
+        X = P.dot(R.T) + np.array([rng.random() for _ in range(3)]).dot(cf)
+        for k in range(len(X)):
+            v = np.array([rng.gauss(0, 1) for _ in range(3)])
+            X[k] += v / np.linalg.norm(v) * rng.uniform(f_lo, f_hi) * atol
+        X = np.array([wrap(x, cf, cinv) for x in X])
+        ins, amb = brute_occurrences(pel, X, cf, pel, P.tolist(), atol, inside=0.5)
+        if not amb and ins == {tuple(range(len(pel)))}:
+            return {"elems": list(pel), "pos": X.tolist(), "cell": cf.tolist(),
+                    "pattern": {"elems": list(pel), "pos": P.tolist(), "name": "custom"}, "planted": [tuple(range(len(pel)))],
+                    "info": {"cell": "roomy", "pattern": "custom", "copies": 1, "kinds": ["copy:random"], "tight": False,
+                             "attempts": 1}}
+    return None
+
+
+def ill_conditioned_hint_case(rng, atol=0.05):
+    """KNOWN FINDING stream (C03-hint-ill-conditioned-orientation-point): a four-atom pattern whose hinted orientation
+    atom lies close to the axis (0.05-0.25 A) while another atom is 0.9-1.6 A away from it (lever ratio >= ILL_RO), one
+    copy with every atom displaced by 0.1-0.25 atol.  Returns (case, hints) or None."""
+    L = rng.choice([2.5, 3.0, 3.5])
+    dd = rng.uniform(0.05, 0.25)
+    far = rng.uniform(max(0.9, ILL_RO * dd * 1.2), 1.8)
+    P = [[0, 0, 0], [L, 0, 0], [rng.uniform(0.8, L - 0.8), dd, 0], [rng.uniform(0.8, L - 0.8), far * 0.8, far * 0.6]]
+    pel = ["C", "N", "O", "F"]
+    hints = (0, 1, 2)
+    if hint_levers(P, hints)[1] < ILL_RO:
+        return None
+    case = single_copy(rng, pel, P, atol, 0.1, 0.25)
+    return None if case is None else (case, hints)
+
+
+FINDING_HINT_CASE = {   # the structure of the probe that established the finding (asym5, hints (0, 3, 4))
+    "elems": ["C", "C", "N", "O", "H"],
+    "pos": [[5.005697, 6.002385, 7.000959], [5.102909, 6.739905, 5.703261], [3.870709, 7.116406, 5.231752],
+            [4.070088, 5.031513, 6.940468], [5.651436, 6.941643, 7.298933]],
+    "cell": [[14.0, 0.0, 0.0], [0.0, 15.0, 0.0], [0.0, 0.0, 16.0]],
+    "pattern": {"elems": ["C", "C", "N", "O", "H"],
+                "pos": [[0.0, 0.0, 0.0], [1.5, 0.0, 0.0], [2.0, 1.25, 0.25], [-0.5, 1.0, -0.75], [0.25, -0.75, 0.875]]},
+    "planted": [(0, 1, 2, 3, 4)], "hints": (0, 3, 4),
+    "info": {"cell": "ortho", "pattern": "asym5", "copies": 1, "kinds": ["copy:random"], "tight": False, "attempts": 1}}
+
+
+# ------------------------------------------------------------------ occurrences that share atoms
+
+def shared_atom_case(rng, atol=0.05):
+    """a dense structure WITHOUT the usual separation of copies: a few centres, each the first atom of two copies of a
+    short pattern (the copies share that atom); expectation = the independent enumeration (rejected when ambiguous)"""
+    pname = rng.choice(["pair", "pair_same", "bent", "collinear3", "halo"])
+    pj = fl.pattern_json(pname)
+    P = np.array([[float(x) for x in q] for q in pj["pos"]])
+    pel = pj["elems"]
+    cf = np.diag([rng.uniform(6, 8), rng.uniform(6, 8), rng.uniform(6, 8)])
+    if rng.random() < 0.5:
+        cf[1][0] = rng.uniform(-1.5, 1.5)
+        cf[2][1] = rng.uniform(-1.5, 1.5)
+    cinv = np.linalg.inv(cf)
+    elems, pos = [], []
+    for _ in range(rng.randint(1, 3)):
+        ctr = np.array([rng.random() for _ in range(3)]).dot(cf)
+        R = np.array([[float(x) for x in row] for row in fl.rotmat(fl.rat_quat(rng))])
+        X = P.dot(R.T) + ctr
+        elems += list(pel)
+        pos += list(X)
+        R2 = np.array([[float(x) for x in row] for row in fl.rotmat(fl.rat_quat(rng))])
+        X2 = (P - P[0]).dot(R2.T) + X[0]
+        elems += list(pel[1:])
+        pos += list(X2[1:])
+    pos = np.array([wrap(np.array(x) + np.array([rng.uniform(-1, 1) for _ in range(3)]) * (atol / 8 / math.sqrt(3)), cf, cinv)
+                    for x in pos])
+    ins, amb = brute_occurrences(elems, pos, cf, pel, P.tolist(), atol)
+    if amb or not ins:
+        return None
+    return {"elems": elems, "pos": pos.tolist(), "cell": cf.tolist(),
+            "pattern": {"elems": list(pel), "pos": P.tolist(), "name": pname}, "planted": sorted(ins),
+            "info": {"cell": "dense", "pattern": pname, "copies": len(ins), "kinds": ["shared-atoms"], "tight": False,
+                     "attempts": 1}}
+
+
+def exact_case(rng, atol_zero):
+    """exact copies for a vanishing tolerance: atol = 0 -> dyadic coordinates, identity pose, orthorhombic dyadic cell
+    (every float operation of the search is exact); otherwise (atol = 1e-9) exact copies in any pose and cell.
+    Validated with the enumerator at tolerance 1e-9."""
+    pname = rng.choice(["pair", "bent", "asym4", "planar4", "collinear_asym", "halo", "asym5"])
+    copies = [("identity" if atol_zero else rng.choice(POSES),
+               [rng.choice([0.25, 0.375, 0.5]) for _ in range(3)] if atol_zero else
+               (None if rng.random() < 0.5 else [rng.choice(FRACS) for _ in range(3)])) for _ in range(rng.randint(1, 2))]
+    return planted(rng, pname, "ortho" if atol_zero else rng.choice(["ortho", "tri+", "rot", "upper"]), copies,
+                   atol=1e-9, ndecoy=0, exact=True, validate_atol=1e-9)
+
+
+def model_op(case, atol, hints, hook):
+    """findlib.find_op with the hints AND the axis exported by the code brought to non-negative indices (the code keeps a
+    negative hint as given; the model counts atoms from 0)"""
+    n = len(case["pattern"]["elems"])
+    op = fl.find_op(case, atol, tuple(norm_hints(hints, n)), hook)
+    op["axis"] = [None if a is None else int(a) % n for a in op.get("axis", [None, None, None])]
+    return op
